@@ -21,11 +21,31 @@
   (`(a . (b c))` reads as `(a b c)`); `C09_names`: every Rust identifier and punctuation run is a
   plain name.  Outside the theorem: floats, unquotes (no text), escapes in literals (rustc unescapes).
   Witnesses kept there: `(. 5)`, `#(. a)`, the 127-fold dotted literal.
+  Extended text side (LexprModel/Proofs/MacroText2.lean with MacroText2Base, MacroText2Ex, MacroText2Embed;
+  imported here): the syntax tree `Sx` adds float leaves with their written spelling (`DecLit`) and
+  strings / characters of ARBITRARY content (a Rust literal reaches the macro unescaped; its equivalent
+  S-expression text is the default printer's rendering, R6RS escapes); `C09_text2`, `C09_agree_full`
+  (`TextOK2`: any valid UTF-8 string, any scalar character, `-0`, symbol names with a non-ASCII alphabetic
+  initial, float leaves that are exactly readable in the build), `C09_agree_float_default` (digits below
+  2^53 and |exponent| <= 22: macro and default parser give the same correctly rounded double, both signs),
+  `C09_agree_float_nofast` (at most 19 digits); `C09_agree_full_extends` (the old sub-language embeds).
+  Each float hypothesis is shown necessary by a kernel-checked witness that is also a behaviour of the
+  real crate (known findings): `C09_float_window_needed` (`1e-23`), `C09_float_window_needed_8_5em30`,
+  `C09_float_digits_needed` (`18446744073709553665.0`, 20 digits: one ulp apart in BOTH builds).
+  Names: `C09_keyword_names_exact`, `C09_symbol_image`, `C09_space_symbol_no_text` (`#"a b"` has no
+  text), `C09_dot_head_needed` (the C13 dot-head finding seen through the macro).
+  Unquotes (LexprModel/Proofs/MacroUnquote.lean, imported here): `C09_unquote_plug`, `C09_unquote_agree`
+  (the macro on a tree with unquotes = the parser on the text of the plugged tree, at any depth),
+  `C09_unquote_tail_list/_improper/_atom/_nested` (a dotted tail that evaluates to a list is merged as
+  `Value::append` does).
   Tie: batches of generated `sexp!` invocations compiled against /repo, compared with `from_str`
   and with this model.
 -/
 import LexprModel.Proofs.MacroSpec
 import LexprModel.Proofs.MacroText
+import LexprModel.Proofs.MacroText2Ex
+import LexprModel.Proofs.MacroText2Embed
+import LexprModel.Proofs.MacroUnquote
 namespace Lexpr
 namespace Macro
 
